@@ -36,7 +36,8 @@ CURATED = ['', ' ', '  ', 'a b', "it's", '"q"', '$(HOME)', '${HOME}', '$$', '$HO
 CONTEXTS = ['cmd_arg', 'cmd_env', 'cmd_word', 'cmds_multi', 'step_arg', 'step_jbos',
             'test_arg', 'test_env', 'driver_arg', 'driver_child', 'driver_child_wrap',
             'driver_nested', 'compile_opt', 'compile_opt_str', 'define_value',
-            'link_opt', 'link_opt_str', 'include_path']
+            'link_opt', 'link_opt_str', 'include_path', 'desc_step', 'symlink_src',
+            'copy_src_desc']
 SCRIPT_CONTEXTS = ['global_opt', 'global_opt_str', 'global_link_opt', 'env_cflags',
                    'env_cppflags', 'env_ldflags', 'env_ldlibs']
 
@@ -59,6 +60,14 @@ def admissible(ctx, s):
         # a word of the form NAME=value is an assignment to sh, and a leading
         # '-' option for neither sh nor make: both are legitimate words
         if re.match(r'^[A-Za-z_][A-Za-z0-9_]*=', s):
+            return False
+    if ctx in ('symlink_src', 'copy_src_desc'):
+        # a source file name: one component, nothing the file system refuses.  Characters
+        # for which Make itself has no working escape in prerequisites are C04's business
+        # (calibrated there); keep to names make can carry as a prerequisite.
+        if s in ('', '.', '..') or '/' in s or re.match(r'^.:', s) or \
+           len(s.encode('utf-8')) > 150 or re.search(r"[%*?\[\]()'~|;=\\<>]", s) or \
+           s[:1] in '- ' or s[-1:] == ' ':
             return False
     if ctx == 'include_path':
         # a directory name below the source dir, passed as a header_directory()
@@ -114,6 +123,7 @@ def render_script(slots, script_slots=()):
     words = []
     cmd_targets = []
     incdirs = []
+    srcfiles = []
     defaults = []
     have_tests = False
     have_default = False
@@ -233,6 +243,21 @@ def render_script(slots, script_slots=()):
             defaults.append('t%d' % i)
             exp[i] = {'kind': 'compile', 'opts': ['-I@SRC@/inc%d/%s' % (i, s)],
                       'out': 'obj%d.o' % i}
+        elif ctx == 'desc_step':
+            L.append("t%d = build_step('o%d', cmd=['vrec', %s, 'x y', '--touch', "
+                     "build_step.output, '--end'], description=%s)" % (i, i, _r(mark), _r(s)))
+            defaults.append('t%d' % i)
+            exp[i] = {'kind': 'argv-prefix', 'argv': ['vrec', mark, 'x y', '--touch'],
+                      'out': 'o%d' % i}
+        elif ctx in ('symlink_src', 'copy_src_desc'):
+            fname = 'f%d_%s' % (i, s)
+            srcfiles.append(fname)
+            mode = 'symlink' if ctx == 'symlink_src' else 'copy'
+            L.append("t%d = copy_file('l%d', %s, mode=%r, description='described step %d')"
+                     % (i, i, _r(fname), mode, i))
+            defaults.append('t%d' % i)
+            exp[i] = {'kind': 'copy', 'src': fname, 'out': 'l%d' % i,
+                      'tool': 'vwrap-ln' if mode == 'symlink' else 'vwrap-cp'}
         elif ctx == 'link_opt':
             need_src = True
             L.append("t%d = executable('ex%d', files=[shared_obj], link_options=[%s])" % (i, i, _r(s)))
@@ -268,7 +293,8 @@ def render_script(slots, script_slots=()):
         text += "alias('runcmds', [%s])\n" % ', '.join(cmd_targets)
     if defaults:
         text += "default(%s)\n" % ', '.join(defaults)
-    return text, words, cmd_targets, have_tests, exp, genv, incdirs
+    return text, words, cmd_targets, have_tests, exp, genv, incdirs + [('file', f)
+                                                                        for f in srcfiles]
 
 
 # ---------------------------------------------------------------- running
@@ -296,7 +322,11 @@ def run_script(backend, slots, script_slots=(), keep=False):
         proj.write_tree(src, files)
         for d in incdirs:
             try:
-                os.makedirs(os.path.join(src, d), exist_ok=True)
+                if isinstance(d, tuple):
+                    with open(os.path.join(src, d[1]), 'w') as f:
+                        f.write('data\n')
+                else:
+                    os.makedirs(os.path.join(src, d), exist_ok=True)
             except OSError:
                 pass
         for w in set(words):
@@ -307,6 +337,7 @@ def run_script(backend, slots, script_slots=(), keep=False):
         log = os.path.join(root, 'log')
         extra = proj.stub_toolchain_env(log)
         extra['VSTUB_ENVKEYS'] = 'VF_E'
+        extra.update({'CP': 'vwrap-cp -f', 'SYMLINK': 'vwrap-ln -sf'})
         extra.update(genv)
         env = core.base_env(extra, path_prepend=[wbin])
         rc, o = proj.configure(src, bld, backend, env=env)
@@ -488,6 +519,19 @@ def judge(backend, slots, script_slots, out, exp, root_hint=None):
                   os.path.normpath(os.path.join(rs[0]['cwd'], a[3][:len(a[3]) - len(s)]
                                                 if s else a[3])) ==
                   os.path.normpath(os.path.join(rs[0]['cwd'], e['out'])))
+            verdict[i] = None if ok else ('argv-differs', a)
+        elif k == 'copy':
+            rs = [r for r in recs if os.path.basename(r['name']) == e['tool'] and
+                  os.path.basename(r['argv'][-1]) == e['out']]
+            if len(rs) != 1:
+                verdict[i] = ('not-started' if not rs else 'started-%d-times' % len(rs),
+                              [r['argv'] for r in rs])
+                continue
+            r = rs[0]
+            a = r['argv']
+            srcpath = os.path.join(os.path.dirname(r['cwd']), 'src', e['src'])
+            got = os.path.normpath(os.path.join(r['cwd'], a[-2])) if len(a) >= 3 else None
+            ok = (len(a) == 4 and got == os.path.normpath(srcpath))
             verdict[i] = None if ok else ('argv-differs', a)
         elif k in ('compile', 'link', 'ar'):
             rs = by_out.get(e['out'], [])
